@@ -331,6 +331,10 @@ func init() {
 			// the temp branch skips parts that were already written from File.streams
 			iRange, iSkip, iApp := strings.Index(b, "f.tempFiles.Range("), strings.LastIndex(b, "if _, ok := f.streams[path.(string)]; ok"), strings.Index(b, "tempFiles = append(tempFiles, path.(string))")
 			fmt.Fprintf(w, "def zipTempBranchSkipsStreams : Bool := %s\n", c12Bool(iRange >= 0 && iSkip > iRange && iApp > iSkip))
+			// the Pkg loop skips stream parts as well, and the stream loop comes first
+			iPkg, iPSkip, iPApp := strings.Index(b, "f.Pkg.Range("), strings.Index(b, "if _, ok := f.streams[path.(string)]; ok"), strings.Index(b, "files = append(files, path.(string))")
+			iStreams := strings.Index(b, "range f.streams")
+			fmt.Fprintf(w, "def zipPkgBranchSkipsStreams : Bool := %s\n", c12Bool(iStreams >= 0 && iPkg > iStreams && iPSkip > iPkg && iPApp > iPSkip && iRange > iPApp))
 		}
 
 		// ---- saveFileList / readBytes / readXML / sharedStringsLoader shapes ----
